@@ -92,7 +92,7 @@ func validateGenesisStateApplications(applications []types.Application, minimumS
 			return fmt.Errorf("staked/unstaked genesis application cannot have zero stake, application: %v", app)
 		}
 		addrMap[strKey] = true
-		if !app.IsUnstaked() && app.StakedTokens.LTE(minimumStake) {
+		if !app.IsUnstaked() && app.StakedTokens.LT(minimumStake) {
 			return fmt.Errorf("application has less than minimum stake: %v", app)
 		}
 		for _, chain := range app.Chains {
